@@ -636,6 +636,8 @@ def check_vertex_cycle(ctx, rep, rule='T-vertex-cycle'):
                         if inner[0] == 'ref' and inner[1][1] and inner[1][1][-1][0] == 'i':
                             ix = _ix(inner[1][1][-1][1], names)
                     idxs.append(ix)
+                if which == 'identical':
+                    idxs = sorted(idxs)       # the predicate handed in is symmetric (vertex-predicates below)
                 which = '%s(%s)' % (which, ','.join(idxs))
                 res = None
                 for (v, c) in p.conds:
@@ -648,3 +650,112 @@ def check_vertex_cycle(ctx, rep, rule='T-vertex-cycle'):
     rep.ob(rule, 'scans', r_ok and l_ok,
            'the R scan must advance over events identical to the group\'s first event that are not left events, the L scan over identical '
            'events; found R scan %s, L scan %s' % (sorted(scans[heads[1]]), sorted(scans[heads[2]])), loc=b.loc(b.j['line_lo']), reason='table-row')
+    check_vertex_predicates(ctx, rep, rule)
+
+
+def _pred_eval(v, env, params):
+    """truth value of a predicate closure's result for concrete points / flags of its arguments"""
+    x = strip_upd(v)
+    if sym.is_const(x):
+        return x[1]
+    if x[0] == 'op' and x[1] == 'not':
+        return not _pred_eval(x[2], env, params)
+    if x[0] == 'op' and len(x) == 4 and x[1] in ('bitand', 'bitor', 'bitxor'):
+        a, b = bool(_pred_eval(x[2], env, params)), bool(_pred_eval(x[3], env, params))
+        return {'bitand': a and b, 'bitor': a or b, 'bitxor': a != b}[x[1]]
+    if x[0] == 'op' and len(x) == 4 and x[1] in ('eq', 'ne', 'lt', 'gt', 'le', 'ge'):
+        a, b = _pred_eval(x[2], env, params), _pred_eval(x[3], env, params)
+        return {'eq': a == b, 'ne': a != b, 'lt': a < b, 'gt': a > b, 'le': a <= b, 'ge': a >= b}[x[1]]
+    # leaves: <param>.point[.x|.y], <param>.left
+    path = []
+    y = x
+    while y[0] in ('field', 'deref', 'rcptr', 'refval', 'cell') or (y[0] == 'ref' and y[1][0][0] == 'ext'):
+        if y[0] == 'field':
+            path.append(str(y[2]))
+            y = strip_upd(y[1])
+        elif y[0] == 'ref':
+            path += [str(st[1]) for st in reversed(y[1][1]) if st[0] == 'f']
+            y = strip_upd(y[1][0][1])
+        else:
+            y = strip_upd(y[1])
+    path = [q for q in reversed(path) if q != 'mutable']
+    if y[0] == 'param' and y[1] in params:
+        who = params[y[1]]
+        if path == ['point']:
+            return env[who + '.point']
+        if path == ['point', 'x']:
+            return env[who + '.point'][0]
+        if path == ['point', 'y']:
+            return env[who + '.point'][1]
+        if path == ['left']:
+            return env[who + '.left']
+    raise ValueError(show(noepoch(x))[:70])
+
+
+def check_vertex_predicates(ctx, rep, rule='T-vertex-cycle'):
+    """the grouping is only as good as the predicates handed to precompute_iteration_order: events belong to one vertex exactly
+    when their points are equal (both coordinates), the L / R kind is the left flag; the data is what order_events returned"""
+    import itertools
+    b, ps = rep.explore(ctx, CONNECT, rule, expand_loops=True)
+    if b is None:
+        return
+    call = None
+    path = None
+    for p in ps:
+        for e in p.calls('precompute_iteration_order'):
+            call, path = e, p
+            break
+        if call:
+            break
+    if call is None:
+        return      # the map is built some other way: T-walk / T-next-pos report what they cannot follow
+    args = call['args']
+    ok = len(args) == 3
+    why = []
+    if ok:
+        data = call.get('ref_vals', {}).get(0)
+        tr = list(sym.walk(args[0])) + (list(sym.walk(data)) if data is not None else [])
+        locs = [x[1] for x in tr if x[0] == 'ref' and x[1][0][0] == 'loc']
+        for l in locs:
+            if l in path.final.mem:
+                tr += list(sym.walk(path.final.mem[l]))
+        if not any(x[0] in ('call', 'pcall') and x[1].endswith('order_events') for x in tr):
+            ok = False
+            why.append('the data is not the result of order_events')
+        for i, (who, want) in ((1, ('identical', lambda e: e['a.point'] == e['b.point'])), (2, ('is_left', lambda e: e['a.left']))):
+            c = strip_upd(args[i])
+            name = c[2] if c[0] == 'agg' and c[1] == 'closure' else (c[1][1] if c[0] == 'c' and isinstance(c[1], tuple) and c[1][0] == 'fn' else None)
+            if name is None or ctx.facts().body(name) is None:
+                ok = False
+                why.append('%s predicate is not a closure or function of this crate' % who)
+                continue
+            try:
+                bc, pc = ctx.paths(name)
+            except sym.CannotAnalyse as e_:
+                ok = False
+                why.append('%s predicate: %s' % (who, e_))
+                continue
+            rep.analysed.add(name)
+            first = 2 if bc.j.get('kind') == 'Closure' else 1
+            params = {first: 'a', first + 1: 'b'}
+            pts = [(0, 0), (0, 1), (1, 0), (1, 1)]
+            try:
+                for pa, pb, la in itertools.product(pts, pts, (False, True)):
+                    env = {'a.point': pa, 'b.point': pb, 'a.left': la, 'b.left': la}
+                    for q in pc:
+                        if q.end != 'return':
+                            continue
+                        if not all((bool(_pred_eval(v, env, params)) == bool(cc[1])) if cc[0] == 'eq' else True for (v, cc) in q.conds):
+                            continue
+                        if bool(_pred_eval(q.ret, env, params)) != bool(want(env)):
+                            ok = False
+                            why.append('%s predicate is %s for a.point=%s b.point=%s left=%s' % (who, not want(env), pa, pb, la))
+                            raise StopIteration
+            except StopIteration:
+                pass
+            except (ValueError, KeyError, TypeError) as e_:
+                ok = False
+                why.append('%s predicate cannot be evaluated: %s' % (who, e_))
+    rep.ob(rule, 'vertex-predicates', ok,
+           'precompute_iteration_order must be given the ordered result events, `same point` (both coordinates equal) and `is a left event`: %s'
+           % '; '.join(why[:3]), loc=b.loc(call['line']), reason='table-row')
